@@ -171,7 +171,9 @@ class Transform:
         return inv
 
     def copy(self):
-        return Transform(matrix=self.matrix)
+        # the constructor keeps a float64 array it is passed
+        # as-is so hand it a copy rather than our own buffer
+        return Transform(matrix=self.matrix.copy())
 
     @caching.cache_decorator
     def is_identity(self):
